@@ -3,7 +3,7 @@ PROP = dict(
     modules=["CG.Props.C14", "CG.Props.Block"],
     required_theorems=["C14_root_eq_spec", "C14_block_root_check", "C14_depth_exact", "C14_traverse_eq_extract",
                        "C14_traverse_eq_extract_any_depth", "C14_sound", "C14_complete", "C14_no_panic", "C14_zero_count",
-                       "C14_short_depth_misreads", "C14_root_by_position", "C14_built_proof_accepted",
+                       "C14_short_depth_misreads", "C14_root_by_position", "C14_root_small", "C14_built_proof_accepted",
                        "C14_node_counter_reaches_total", "C14_node_guard_is_dead",
                        "Block_validate_iff", "Block_validate_accepts_only_merkle_root", "Block_validate_total",
                        "Block_validate_error_sources", "Block_heights_table", "Block_rule_selection", "Block_inputs_spec"],
